@@ -265,6 +265,17 @@ def run(ctx):
     n = ctx.n(60, 1200)
     cases = P.build_cases(ctx, n, gen_kwargs=dict(size=5), nsub_choices=(1, 1, 2), compressed=(False, False, True),
                           versions=(33,), editions=(4, 4, 3))
+    # fields read through OTHER primitives than read_uint at the very start of the data or on an octet boundary: a new
+    # reference value (sign bit first), a one-bit flag, a character field, a skipped local field: every cut, also the one
+    # that leaves exactly zero bits for them
+    rng = ctx.rng
+    for ids in ([203012, 7001, 203255, 7001], [203016, 12001, 10004, 203255, 12001, 10004, 203000], [203008, 7001, 203255, 1001],
+                [31031, 31031, 1001], [1015, 203024, 7002, 203255, 7002], [206008, 63255, 203016, 7001, 203255, 7001],
+                [204001, 31021, 12001, 204000, 203012, 7001, 203255]):
+        for comp in (False, True):
+            cases.append({'ids': ids, 'version': 33, 'edition': 4, 'nsub': 2 if comp else 1, 'compressed': comp, 'forced': '-',
+                          'seed': rng.randrange(1, 2 ** 32), 'maxrep': 3, 'features': {'non-uint-field-at-octet-boundary': 1},
+                          'shared': comp})
     P.attach_templates(cases)
     P.run_gen(cases)
     P.run_encode(cases)
